@@ -2,6 +2,7 @@
   C05 — ActorResult truthfully reports how the actor ended.
 -/
 import Rsactor.Inv.Result
+import Rsactor.Ties.lifecycle_arms
 
 namespace Rsactor.Props.C05
 open Rsactor Rsactor.Model Rsactor.Monitor Rsactor.Extracted
@@ -98,5 +99,9 @@ example : ∃ s, run? (init 1 { runOuts := [.err], stopOut := .err })
     [.gate, .startDone, .pollTerm, .pollMail, .gate, .pollRun, .gate, .stopDone] = some s ∧
     s.result = some (some (.Failed (some [.start, .run 0, .stop false]) .run .OnRunThenOnStop false)) := by
   refine ⟨_, rfl, ?_⟩; decide
+
+
+/-! ### ties to the source: shape lemmas about the tables regenerated from /repo on every run -/
+-- @tie Rsactor.Ties.lifecycle_arms
 
 end Rsactor.Props.C05
